@@ -36,6 +36,9 @@ def single_assign_aliases(fn, arith=False):
         else:
             if e[0] == 'a':
                 l = strip(e[2])
+                r0 = strip(e[3])
+                if l and l[0] == 'v' and l[2] == 'l' and e[1] == '=' and r0 and r0[0] == 'l' and r0[1] == 0 and ev.get('mx'):
+                    continue    # `p = NULL` at the end of a release macro (EB_FREE & co.): not a re-definition of the alias
                 if l and l[0] == 'v' and l[2] == 'l':
                     cnt[l[1]] = cnt.get(l[1], 0) + 1
                     val[l[1]] = e[3] if e[1] == '=' else None
